@@ -98,10 +98,7 @@ def check_event(seq, i, prev, rec, V):
         return False
     premise = in_envelope(p) and in_envelope(q)
     # -- accept / reject semantics
-    if ev[0] == 'copy':
-        ev = ('text', ev[2], rec['texts_before'][ev[1]])
-    if ev[0] == 'nudge':
-        ev = ('text', ev[1], f"{float(rec['texts_before'][ev[1]]) + ev[2]:.4f}")
+    ev = tuple(rec.get('resolved', ev))
     if ev[0] == 'text':
         w, text = ev[1], ev[2]
         name, scale, unit = DISPLAY[w]
